@@ -10,6 +10,8 @@ import (
 	"fmt"
 	"io"
 	"os"
+	"os/exec"
+	"path/filepath"
 	"strings"
 	"time"
 
@@ -251,6 +253,22 @@ func raceReader() func() string {
 
 // reproduces reports whether executing c yields the expected violation.
 func reproduces(p props.Property, c *sim.Case, env *props.Env) bool {
+	if env.Race {
+		// the race detector reports a given pair of stacks once per process:
+		// every candidate needs a process of its own
+		f := filepath.Join(env.Tmp, "cand.json")
+		b, _ := json.Marshal(c)
+		if err := os.WriteFile(f, b, 0o644); err != nil {
+			return false
+		}
+		cmd := exec.Command(os.Args[0], "replay", "--file", f, "--tmp", filepath.Join(env.Tmp, "cand"))
+		cmd.Env = os.Environ()
+		err := cmd.Run()
+		if ee, ok := err.(*exec.ExitError); ok && ee.ExitCode() == 1 {
+			return true
+		}
+		return false
+	}
 	res, infra := props.Execute(p, c, env)
 	if infra != nil || res == nil {
 		return false
